@@ -5,5 +5,6 @@ CONSTANTS
   MaxLen = 3
   AppPatterns <- AppsAll
   Data0 <- D2
+  MinLen = 2
 INVARIANTS TypeOK CountInv UnderflowInv RefInv FreshStackInv Emit
 CHECK_DEADLOCK FALSE
